@@ -147,6 +147,39 @@ def native(name, conc, notes):
     return {"inputs": conc, "reproduced": None, "detail": "no native harness for this clause"}
 
 
+def native_mbx_recv(name, conc, notes):
+    """the real mbx_recv against a simulated receive mailbox larger / smaller
+    than the send mailbox: what it reads, what it returns"""
+    from ebpfcat.ethercat import ECCmd, MBXType, Terminal
+    bad = []
+    for in_sz, out_sz in ((64, 64), (128, 48), (48, 128)):
+        mail = struct.pack("<HHBB", in_sz - 6, 0, 0, MBXType.COE.value | 0x30) + bytes(range(in_sz - 6))
+        reads = []
+
+        class EC:
+            async def roundtrip(self, cmd, pos, offset, *args, data=None, idx=0):
+                if offset == 0x80D:
+                    return (8,)
+                reads.append((offset, struct.calcsize("<" + args[0]) + data))
+                body = mail[6:6 + data] + bytes(max(0, data - (in_sz - 6)))
+                return struct.unpack("<HHBB", mail[:6]) + (body,)
+        t = object.__new__(Terminal)
+        t.ec, t.position = EC(), 5
+        t.mbx_in_off, t.mbx_in_sz, t.mbx_out_off, t.mbx_out_sz = 0x1100, in_sz, 0x1000, out_sz
+        try:
+            ty, data = asyncio.run(t.mbx_recv())
+        except Exception as e:      # noqa
+            bad.append(f"in {in_sz}/out {out_sz}: {type(e).__name__}: {e}")
+            continue
+        if reads != [(0x1100, in_sz)]:
+            bad.append(f"in {in_sz}/out {out_sz}: read (offset, bytes) {reads}, the mailbox is (0x1100, {in_sz}): "
+                       f"its last byte is {'not ' if reads[0][1] < in_sz else ''}read")
+        if data != mail[6:] or ty is not MBXType.COE:
+            bad.append(f"in {in_sz}/out {out_sz}: returned {len(data)} of {in_sz - 6} bytes of service data")
+    return {"inputs": {"mailbox sizes (in, out)": [(64, 64), (128, 48), (48, 128)]}, "reproduced": bool(bad),
+            "detail": f"real Terminal.mbx_recv on a full receive mailbox: {bad[:3]}"}
+
+
 def run(tier, seed):
     from contracts import c16_sdo as S
     rep = R.Report("C16", tier, seed)
@@ -157,6 +190,16 @@ def run(tier, seed):
                "download expedited / normal / segmented; at most one unrelated mail before the first response")
     rep.assume("asyncio.Lock contract (C15); mailbox sizes between 24 and 1486 bytes")
     saved = dict(api.REGISTRY)
+    # the transport under the SDO exchanges: mbx_recv against the receive
+    # mailbox (sync manager 1) - the server contract above stands on it
+    api.REGISTRY[S.MbxInBus.qualname] = S.MbxInBus()
+    try:
+        api.verify(S.mbx_recv_contract(), rep, replay=native_mbx_recv)
+    finally:
+        api.REGISTRY.clear()
+        api.REGISTRY.update(saved)
+    rep.assume("receive mailbox = memory of sync manager 1, handed back when its last byte is read; a mail fits its "
+               "mailbox (ETG.1000.4)")
     S.install()
     try:
         api.verify(S.read_contract(True), rep, replay=native)
